@@ -104,6 +104,7 @@ type Invocation struct {
 	RecGroups []rapid.VerifGroup
 
 	tickIdx int      // harness-call index of this invocation's begin tick
+	ElapsedAtEnd time.Duration // simulated time elapsed in this run when the property function ended
 	Actions []string // executed action names, in order (each try)
 	WaitersParked int
 
@@ -440,6 +441,7 @@ func (w *World) endInv(t *rapid.T, inv *Invocation) {
 	w.verifyPending() // inner (Custom) brackets close before the enclosing call ends
 	w.pending = append(w.pending, inv)
 	inv.Ended = true
+	inv.ElapsedAtEnd = w.clk.Elapsed
 	switch {
 	case inv.Returned:
 		inv.EndState = "returned"
